@@ -214,7 +214,7 @@ class MinPathCoverCycles(walkmodel.AbstractWalkModelDiGraph):
     def get_lowerbound_k(self):
 
         if self._lowerbound_k is None:
-            stG = stdigraph.stDiGraph(self.G)
+            stG = stdigraph.stDiGraph(self.G, additional_starts=self.additional_starts, additional_ends=self.additional_ends)
             # The global source / sink edges of the fresh stDiGraph need not be covered: ignore them too (as the k-models do)
             self._lowerbound_k = stG.get_width(edges_to_ignore=list(self.edges_to_ignore) + list(stG.source_sink_edges))
 
